@@ -1,16 +1,17 @@
 SPECIFICATION MCSpec
 CONSTANTS
-  N = 3
+  N = 2
   Floor = 100
   Sustain = 2
-  ProbInterval = 3
-  ProbWindow = 2
-  Rates = {30, 600}
-  Delays = {FALSE}
+  ProbInterval = 15
+  ProbWindow = 3
+  Rates = {0, 30, 120, 600}
+  Delays = {TRUE, FALSE}
   Conns = {TRUE, FALSE}
-  MaxTicks = 100000
-  Export = FALSE
+  MaxTicks = 4
+  Export = TRUE
 VIEW View
+ACTION_CONSTRAINT Emit
 CONSTRAINT Bound
 INVARIANTS NotWeakWhenOff DelayNeedsTwoTicks RunBounded EnterLeave
 PROPERTY ProbationHonoured
